@@ -128,6 +128,7 @@ type World struct {
 	SchedHash   uint64 // rolling hash over (task, kind) of context switches
 	Switches    int
 	Preemptions int
+	Stalls      int // disk stalls injected by the harness's latency model
 
 	// Ext lets the other sim packages attach their per-world state.
 	FS any
